@@ -53,6 +53,12 @@ func runSeqOp(w *world, kind string, op opSpec, observe bool) opObs {
 	c := w.newClient(kind, 2*time.Second, true)
 	c.fault = op.Fault
 	var err error
+	t0 := time.Now()
+	defer func() {
+		if d := time.Since(t0); d > 40*time.Millisecond && os.Getenv("C16_SLOW") != "" {
+			fmt.Fprintf(os.Stderr, "SLOW %v %s %s fault=%+v\n", d, kind, op.Op, op.Fault)
+		}
+	}()
 	switch op.Op {
 	case "store":
 		err = c.storeK(op.key(), op.Ver)
